@@ -211,6 +211,16 @@ void signatures(Ctx& ctx)
 		if (expectThrow) { ctx.count("detector/short-streams"); if (o.cls == 'R' && got) ctx.violation("C09/detector/short-stream-classified-as-custom", key, ""); return; }
 		if (o.cls != 'R') { ctx.violation("C09/detector/throws", key, o.what); return; }
 		if (got != expect) ctx.violation("C09/detector/classification", key, got ? "classified as custom" : "classified as not custom");
+		{
+			// the overload taking a temporary (or moved) reader: same answer, and the reader is left where it was as well
+			bool got2 = !got;
+			auto o2 = mc::guarded([&] { got2 = Tileset::PeekIsCustomTileset(std::move(*r)); });
+			uint64_t pos2 = ~0ull;
+			auto q2 = mc::guarded([&] { pos2 = r->Position(); });
+			ctx.transition();
+			if (o2.cls != 'R' || got2 != got) ctx.violation("C09/detector/temporary-reader-overload-differs", key, o2.what);
+			else if (q2.cls != 'R' || pos2 != startPos) ctx.violation("C09/detector/moved-the-stream-position", key + " (overload taking a temporary reader)", "Position() " + std::to_string(pos2) + " expected " + std::to_string(startPos));
+		}
 		ctx.count(expect ? "detector/custom" : "detector/not-custom");
 		ctx.outcome(mc::fnv(key.substr(0, 12)) ^ (got ? 1 : 0));
 	};
